@@ -21,7 +21,7 @@ Translated subset (anything else: exit status 2, nothing written):
                loop body ; a final `return 0`
   expressions  names, int / float literals, + - * / unary -, a[i] a[i,j]
                a[i,j,k] on the array parameters, abs(e), int(round(e)) on an
-               integer e (identity), comparisons < > ==, `and`, `not`
+               integer e (identity), comparisons < > <= >= ==, `and`, `not`
   types        Z (integers: pixels, coordinates, mask offsets / weights),
                Q (Python floats, exact), bool; a variable's type is that of
                its first assignment (a Q variable may later receive a Z value,
@@ -270,7 +270,7 @@ class Kernel:
                 fail(e, 'comparison of booleans')
             op = e.ops[0]
             if a[1] == 'Z' and b[1] == 'Z':
-                for k, s in ((ast.Lt, '<?'), (ast.Gt, '>?'), (ast.Eq, '=?')):
+                for k, s in ((ast.Lt, '<?'), (ast.Gt, '>?'), (ast.Eq, '=?'), (ast.LtE, '<=?'), (ast.GtE, '>=?')):
                     if isinstance(op, k):
                         return '(%s %s %s)%%Z' % (a[0], s, b[0]), 'B'
             else:
@@ -278,6 +278,10 @@ class Kernel:
                     return '(qltb %s %s)' % (self.toq(a), self.toq(b)), 'B'
                 if isinstance(op, ast.Gt):
                     return '(qltb %s %s)' % (self.toq(b), self.toq(a)), 'B'
+                if isinstance(op, ast.LtE):
+                    return '(Qle_bool %s %s)' % (self.toq(a), self.toq(b)), 'B'
+                if isinstance(op, ast.GtE):
+                    return '(Qle_bool %s %s)' % (self.toq(b), self.toq(a)), 'B'
             fail(e, 'unsupported comparison %s' % type(op).__name__)
         if isinstance(e, ast.BoolOp):
             if not isinstance(e.op, ast.And):
